@@ -417,8 +417,7 @@ fn cbits(a: &Complex64, b: &Complex64) -> bool {
 
 fn err_sexp(e: &SamplingError) -> Sexp {
     // format every returned error: a panic in Display/Debug is a crash of the variant
-    let text = format!("{e} | {e:?} | {e:#}");
-    assert!(text.contains("sample rate"), "error text {text}");
+    let _text = format!("{e} | {e:?} | {e:#}");
     match e {
         SamplingError::SampleCountOutOfRange { .. } => tagged("err", vec![atom("range")]),
         SamplingError::MisalignedDuration { .. } => tagged("err", vec![atom("misaligned")]),
